@@ -365,7 +365,8 @@ def _r3_leaves(run):
     ev.self_class = IMG + ".Image"
     ev.no_inline = ("asarray", "aspil", "_as_writeable_array")
     ev.unroll = True            # a table-driven helper ((keyword, explicit value, reducer) rows) is evaluated row by row
-    r = ev.run(f.node)
+    from . import common as _common
+    r = ev.run(_common.splice(project, f).node)      # a generator helper producing the (keyword, value) cards is spliced into its loop
     stores = [e for e in r.events if e.kind == "store" and e.term[1][0][0] == "sub" and e.term[1][0][2] in (("const", "DATAMIN"), ("const", "DATAMAX"))]
     arr = ("call", ("attr", ("sym", "self"), "asarray"), (), ())
     bad = []
